@@ -123,3 +123,25 @@ def enclosing_loops(func: ast.AST, node: ast.AST) -> List[ast.AST]:
 
     visit(func, [])
     return out
+
+
+def squared_norm_idiom(expr: ast.AST, x: str) -> Optional[bool]:
+    """Does ``expr`` denote sum_i |x_i|^2 for a complex vector ``x``?
+
+    True for the accepted idioms, False for recognised look-alikes that drop the conjugation or the
+    square (``np.dot(x, x)``, ``np.sum(x ** 2)``, ``np.sum(np.abs(x))``, ``np.sum(x * x)``), None if the
+    expression has another shape."""
+    t = norm(expr)
+    pre = ("np.", "numpy.")
+    yes = set()
+    no = set()
+    for m in pre:
+        yes |= {f"{m}sum({m}abs({x}) ** 2)", f"({m}abs({x}) ** 2).sum()", f"{m}sum({m}absolute({x}) ** 2)", f"{m}linalg.norm({x}) ** 2", f"{m}vdot({x}, {x}).real", f"{m}vdot({x}, {x})",
+                f"{m}sum({x} * {m}conj({x}))", f"{m}sum({m}conj({x}) * {x})", f"{m}sum({x} * {x}.conj())", f"{m}sum({x}.conj() * {x})", f"{m}sum({m}square({m}abs({x})))", f"{m}dot({m}conj({x}), {x})", f"{m}dot({x}.conj(), {x})",
+                f"{m}sum({m}real({x}) ** 2 + {m}imag({x}) ** 2)", f"{m}sum({x}.real ** 2 + {x}.imag ** 2)", f"{m}sum(abs({x}) ** 2)", f"sum(abs({x}) ** 2)", f"{m}dot({m}conj({x}), {x}).real", f"{m}dot({x}.conj(), {x}).real"}
+        no |= {f"{m}dot({x}, {x})", f"{m}dot({x}, {x}).real", f"{m}sum({x} ** 2)", f"{m}sum({x} * {x})", f"{m}sum({m}abs({x}))", f"{m}sum({x})", f"{m}inner({x}, {x})", f"{m}inner({x}, {x}).real", f"{m}sum({m}square({x}))", f"{m}sum({x} ** 2).real", f"({x} ** 2).sum()", f"{m}linalg.norm({x})", f"{x} @ {x}", f"({x} @ {x}).real", f"{m}abs({m}sum({x} ** 2))", f"{m}abs({m}dot({x}, {x}))"}
+    if t in yes:
+        return True
+    if t in no:
+        return False
+    return None
